@@ -189,6 +189,8 @@ struct StructInfo {
     self_delim: bool,
     static_size: Option<u64>,
     is_child: bool,
+    /// derived struct of constant total size: usable as array element only
+    derived_static: bool,
 }
 
 #[derive(Clone, Debug)]
@@ -253,6 +255,7 @@ pub struct Gen<'a, 'b> {
     in_struct: bool,
     in_child: bool,
     enums_in_record: usize,
+    prefer_derived: bool,
 }
 
 fn maxv(w: u32) -> u64 {
@@ -268,7 +271,7 @@ const ELEM_WIDTHS: &[u32] = &[8, 8, 16, 24, 32, 40, 48, 56, 64];
 
 impl<'a, 'b> Gen<'a, 'b> {
     pub fn new(s: &'a mut Src<'b>, p: Profile) -> Self {
-        Gen { s, p, decls: vec![], nfield: 0, ndecl: 0, enums: vec![], structs: vec![], customs: vec![], strata: vec![], in_struct: false, in_child: false, enums_in_record: 0 }
+        Gen { s, p, decls: vec![], nfield: 0, ndecl: 0, enums: vec![], structs: vec![], customs: vec![], strata: vec![], in_struct: false, in_child: false, enums_in_record: 0, prefer_derived: false }
     }
 
     fn fid(&mut self) -> String {
@@ -533,7 +536,18 @@ impl<'a, 'b> Gen<'a, 'b> {
     // ---------------------------------------------------------------- items
 
     fn pick_struct(&mut self, need_min1: bool, need_self_delim: bool) -> Option<StructInfo> {
-        let c: Vec<StructInfo> = self.structs.iter().filter(|s| (!need_min1 || s.min >= 1) && (!need_self_delim || s.self_delim) && !s.is_child).cloned().collect();
+        self.pick_struct_for(need_min1, need_self_delim, false)
+    }
+
+    fn pick_struct_for(&mut self, need_min1: bool, need_self_delim: bool, for_array: bool) -> Option<StructInfo> {
+        if for_array && self.prefer_derived {
+            let d: Vec<StructInfo> = self.structs.iter().filter(|s| s.derived_static).cloned().collect();
+            if !d.is_empty() {
+                self.prefer_derived = false;
+                return Some(self.s.pick(&d).clone());
+            }
+        }
+        let c: Vec<StructInfo> = self.structs.iter().filter(|s| (!need_min1 || s.min >= 1) && (!need_self_delim || s.self_delim) && (!s.is_child || (for_array && s.derived_static))).cloned().collect();
         if c.is_empty() {
             None
         } else {
@@ -549,6 +563,7 @@ impl<'a, 'b> Gen<'a, 'b> {
         };
         let rt = self.p.round_trip;
         let mut esz = None;
+        let mut force_pad = false;
         let (elem, elem_static, elem_min, elem_sd): (Elem, Option<u64>, u64, bool) = match ek {
             0 => (Elem::Bits(8), Some(1), 1, true),
             1 => {
@@ -563,8 +578,12 @@ impl<'a, 'b> Gen<'a, 'b> {
             }
             3 if self.p.struct_arrays => {
                 let use_esz = self.p.elemsize && self.s.below(4) == 0;
-                match self.pick_struct(!use_esz, rt && !use_esz) {
+                match self.pick_struct_for(!use_esz, rt && !use_esz, !rt) {
                     Some(si) => {
+                        if si.derived_static {
+                            self.strata.push("array.elem=derived-struct".into());
+                            force_pad = self.p.padding && self.s.below(2) == 0;
+                        }
                         // the language reference does not document _elementsize_; the canonical tests
                         // use it for elements of non-constant size only, so that is the domain here
                         if use_esz && si.static_size.is_none() {
@@ -610,7 +629,7 @@ impl<'a, 'b> Gen<'a, 'b> {
             };
         }
         let mut pad = None;
-        if self.p.padding && self.s.below(5) == 0 {
+        if self.p.padding && (self.s.below(5) == 0 || force_pad) {
             let base = match (&shape, elem_static) {
                 (Shape::Static(n), Some(e)) => n * e,
                 _ => 4 * elem_static.unwrap_or(4).max(1),
@@ -919,7 +938,7 @@ impl<'a, 'b> Gen<'a, 'b> {
         }
         min += bits / 8;
         let static_size = stat.map(|a| a + bits / 8);
-        StructInfo { id: id.to_string(), min, self_delim: sd, static_size, is_child }
+        StructInfo { id: id.to_string(), min, self_delim: sd, static_size, is_child, derived_static: false }
     }
 
     // ---------------------------------------------------------------- declarations
@@ -978,7 +997,7 @@ impl<'a, 'b> Gen<'a, 'b> {
                 let fields = vec![Field::new(FieldDesc::Scalar { id: fid, w: 8 * k })];
                 self.decls.push(Decl::Record { id: id.clone(), packet, parent: Some(parent.to_string()), cons: vec![], fields });
                 if !packet {
-                    self.structs.push(StructInfo { id, min: k as u64, self_delim: false, static_size: None, is_child: true });
+                    self.structs.push(StructInfo { id, min: k as u64, self_delim: false, static_size: None, is_child: true, derived_static: false });
                 }
             }
             return;
@@ -991,7 +1010,7 @@ impl<'a, 'b> Gen<'a, 'b> {
                 let (fields, _) = self.gen_fields(0, !packet, None);
                 self.decls.push(Decl::Record { id: id.clone(), packet, parent: Some(parent.to_string()), cons: vec![], fields });
                 if !packet {
-                    self.structs.push(StructInfo { id, min: 0, self_delim: false, static_size: None, is_child: true });
+                    self.structs.push(StructInfo { id, min: 0, self_delim: false, static_size: None, is_child: true, derived_static: false });
                 }
             }
             return;
@@ -1072,7 +1091,7 @@ impl<'a, 'b> Gen<'a, 'b> {
                 av.extend(discr);
                 self.decls.push(Decl::Record { id: id.clone(), packet, parent: Some(parent.to_string()), cons: vec![], fields });
                 if !packet {
-                    self.structs.push(StructInfo { id: id.clone(), min: 0, self_delim: false, static_size: None, is_child: true });
+                    self.structs.push(StructInfo { id: id.clone(), min: 0, self_delim: false, static_size: None, is_child: true, derived_static: false });
                 }
                 self.gen_children(&id, packet, av, depth + 1);
                 // an alias level whose subtree got no constrained child would be ambiguous with
@@ -1083,7 +1102,7 @@ impl<'a, 'b> Gen<'a, 'b> {
             let _ = ch;
             self.decls.push(Decl::Record { id: id.clone(), packet, parent: Some(parent.to_string()), cons, fields });
             if !packet {
-                self.structs.push(StructInfo { id: id.clone(), min: 0, self_delim: false, static_size: None, is_child: true });
+                self.structs.push(StructInfo { id: id.clone(), min: 0, self_delim: false, static_size: None, is_child: true, derived_static: false });
             }
             if has_payload && grand {
                 let mut av = rest;
@@ -1115,6 +1134,28 @@ impl<'a, 'b> Gen<'a, 'b> {
         }
     }
 
+    /// `struct Base { k : 8, _payload_ }  struct Item : Base (k = c) { <static bit-fields> }`
+    fn gen_derived_static(&mut self) {
+        let base = self.did("S");
+        let kid = self.fid();
+        self.decls.push(Decl::Record { id: base.clone(), packet: false, parent: None, cons: vec![], fields: vec![Field::new(FieldDesc::Scalar { id: kid.clone(), w: 8 }), Field::new(FieldDesc::Payload { modifier: None })] });
+        self.structs.push(StructInfo { id: base.clone(), min: 1, self_delim: false, static_size: None, is_child: false, derived_static: false });
+        let n = 1 + self.s.below(2);
+        for k in 0..n {
+            let id = self.did("S");
+            let mut fields = vec![];
+            let mut discr = vec![];
+            self.in_struct = true;
+            self.enums_in_record = 0;
+            self.bit_runs(vec![], true, &mut fields, &mut discr);
+            let tmp = Desc { big: false, decls: { let mut d = self.decls.clone(); d.push(Decl::Record { id: id.clone(), packet: false, parent: Some(base.clone()), cons: vec![Cons { id: kid.clone(), v: Cv::Int(k as u64 + 1) }], fields: fields.clone() }); d } };
+            let sz = crate::refcodec::Ref::new(&tmp).ty_static(&id);
+            self.decls.push(Decl::Record { id: id.clone(), packet: false, parent: Some(base.clone()), cons: vec![Cons { id: kid.clone(), v: Cv::Int(k as u64 + 1) }], fields });
+            self.structs.push(StructInfo { id, min: sz.unwrap_or(0), self_delim: sz.is_some(), static_size: sz, is_child: true, derived_static: sz.map(|n| n >= 1).unwrap_or(false) });
+        }
+        self.strata.push("inherit.struct-static-child".into());
+    }
+
     fn gen_struct_family(&mut self) {
         // struct inheritance
         let id = self.did("S");
@@ -1129,6 +1170,21 @@ impl<'a, 'b> Gen<'a, 'b> {
         self.structs.push(si);
         self.strata.push("inherit.struct".into());
         self.gen_children(&id, false, discr, 0);
+        // derived structs of constant size may serve as array elements
+        let tmp = Desc { big: false, decls: self.decls.clone() };
+        let r = crate::refcodec::Ref::new(&tmp);
+        for si in self.structs.iter_mut() {
+            if si.is_child {
+                if let Some(n) = r.ty_static(&si.id) {
+                    if n >= 1 {
+                        si.static_size = Some(n);
+                        si.min = n;
+                        si.self_delim = true;
+                        si.derived_static = true;
+                    }
+                }
+            }
+        }
     }
 
     /// factor runs of plain fields out into groups (presentation only)
@@ -1187,15 +1243,31 @@ impl<'a, 'b> Gen<'a, 'b> {
             // optional nesting: split the group body once more
             if gfields.len() >= 2 && self.s.below(3) == 0 {
                 let k = 1 + self.s.below(gfields.len() - 1);
-                let inner: Vec<Field> = gfields.drain(k..).collect();
+                let mut inner: Vec<Field> = gfields.drain(k..).collect();
                 let inner_id = self.did("G");
                 let inner_ids: Vec<String> = inner.iter().filter_map(|f| f.id().map(|s| s.to_string())).collect();
                 let (ic, oc): (Vec<Cons>, Vec<Cons>) = cons.into_iter().partition(|c| inner_ids.contains(&c.id));
                 cons = oc;
                 // constraints on inner fields may be given at the inner group field or passed from outside
                 // a group field can only constrain fields declared directly in that group
-                let (at_inner, from_outer): (Vec<Cons>, Vec<Cons>) = (ic, vec![]);
+                let (mut at_inner, from_outer): (Vec<Cons>, Vec<Cons>) = (ic, vec![]);
                 cons.extend(from_outer);
+                // the same identifier at two nesting levels: a constrained field of the inner group may carry the
+                // name of a constrained field of the enclosing group (both become anonymous fixed fields); the
+                // inner use's own constraint must win over the one inherited from the enclosing use
+                if !at_inner.is_empty() && !cons.is_empty() && self.s.below(2) == 0 {
+                    let outer_id = cons[self.s.below(cons.len())].id.clone();
+                    let k = self.s.below(at_inner.len());
+                    let inner_old = at_inner[k].id.clone();
+                    for f in inner.iter_mut() {
+                        match &mut f.d {
+                            FieldDesc::Scalar { id, .. } | FieldDesc::Typedef { id, .. } if *id == inner_old => *id = outer_id.clone(),
+                            _ => {}
+                        }
+                    }
+                    at_inner[k].id = outer_id;
+                    self.strata.push("group.same-name-two-levels".into());
+                }
                 gfields.push(Field::new(FieldDesc::Group { id: inner_id.clone(), cons: at_inner }));
                 self.decls.push(Decl::Group { id: inner_id, fields: inner });
                 self.strata.push("group.nested".into());
@@ -1230,7 +1302,7 @@ impl<'a, 'b> Gen<'a, 'b> {
 }
 
 /// Number of deterministic strata cycled through by batches.
-pub const N_STRATA: usize = 28;
+pub const N_STRATA: usize = 30;
 
 /// Generate one description.  `stratum` (0..N_STRATA) forces one construct.
 pub fn gen_desc(stream: &[u32], p: &Profile, stratum: Option<usize>, big: bool) -> (Desc, Vec<String>) {
@@ -1256,12 +1328,19 @@ pub fn gen_desc(stream: &[u32], p: &Profile, stratum: Option<usize>, big: bool) 
         let sst = if i == 0 && st.map(|x| x < 22 && g.s.below(3) == 0).unwrap_or(false) { st } else { None };
         g.gen_struct(sst);
     }
-    if p.struct_inherit && g.s.below(10) == 0 {
+    if p.struct_inherit && g.s.below(5) == 0 {
         g.gen_struct_family();
+    }
+    let derived_stratum = matches!(st, Some(28) | Some(29)) && p.struct_inherit && !p.round_trip;
+    if derived_stratum {
+        g.gen_derived_static();
+        g.prefer_derived = true;
     }
     let npacket = 1 + g.s.below(2);
     for i in 0..npacket {
-        g.gen_packet(if i == 0 { st.filter(|x| *x < 22) } else { None });
+        // strata 28 / 29: an array of derived structs, unsized (28) or counted (29)
+        let pst = if i == 0 && derived_stratum { Some(if st == Some(28) { 15 } else { 13 }) } else if i == 0 { st.filter(|x| *x < 22) } else { None };
+        g.gen_packet(pst);
     }
     g.finish(big, true)
 }
